@@ -21,7 +21,7 @@ pub fn check() -> Check {
         replay,
         floor_quick: 20_000,
         floor_thorough: 1_000_000,
-        rule: "G1: every token list of length <= 3 over all tokens of <= 2 symbols and every list of length <= 2 over all tokens of <= 3 symbols (quick; thorough: <= 3 over <= 3 symbols and <= 2 over <= 4 symbols) \
+        rule: "G1: every token list of length <= 3 over all tokens of <= 3 symbols, of length <= 2 over all tokens of <= 4 symbols (thorough: <= 5 symbols) and of length <= 4 over all tokens of <= 2 symbols \
                from {dash, a, e-acute, bitcoin sign, G-clef, space} plus the empty token, classified by ArgList (built from the NUL-joined raw form, independent of the tokenizer) and compared with a reference classifier; \
                G2: random lists of up to 12 tokens, both through ArgList and typed (quoted) through a whole Cli to the handler. The iterator must also be fused. \
                Non-trivial = the list contains `--`, a cluster with a multi-byte character, `-` alone, an empty token or a token starting with three dashes; distinct by list content.",
@@ -157,7 +157,7 @@ fn enumerate(ctx: &ShardCtx, toks: &[String], max_len: u32, idx: &mut u64) {
             match compare(&list) {
                 Ok(()) => {
                     if nontrivial(&list) {
-                        ctx.nontrivial(fingerprint(&list), || json!({"tokens": list}));
+                        ctx.nontrivial_enum(|| json!({"tokens": list}));
                     }
                 }
                 Err((e, o)) => {
@@ -185,13 +185,16 @@ fn token_strategy(typeable: bool) -> impl Strategy<Value = String> {
 
 fn run_shard(ctx: &ShardCtx) {
     let mut idx = 0u64;
-    let (a, b) = ctx.tier.pick((2u32, 3u32), (3, 4));
-    enumerate(ctx, &all_tokens(a), 3, &mut idx);
+    let b = ctx.tier.pick(4u32, 5u32);
+    enumerate(ctx, &all_tokens(3), 3, &mut idx);
     if !ctx.failed() {
         enumerate(ctx, &all_tokens(b), 2, &mut idx);
     }
+    if !ctx.failed() {
+        enumerate(ctx, &all_tokens(2), 4, &mut idx);
+    }
     ctx.exhaustive(
-        &format!("lists of <= 3 tokens of <= {} symbols and lists of <= 2 tokens of <= {} symbols", a, b),
+        &format!("lists of <= 3 tokens of <= 3 symbols, lists of <= 2 tokens of <= {} symbols, lists of <= 4 tokens of <= 2 symbols", b),
         !ctx.failed(),
     );
     let enumerated = ctx.res.borrow().evaluations;
@@ -199,7 +202,7 @@ fn run_shard(ctx: &ShardCtx) {
 
     ctx.run_prop(
         "classify-random",
-        ctx.tier.pick(300_000, 4_000_000),
+        ctx.tier.pick(1_000_000, 10_000_000),
         proptest::collection::vec(token_strategy(false), 0..12),
         |l| json!({"tokens": l}),
         |list| {
@@ -213,7 +216,7 @@ fn run_shard(ctx: &ShardCtx) {
     );
     ctx.run_prop(
         "classify-cli",
-        ctx.tier.pick(40_000, 600_000),
+        ctx.tier.pick(200_000, 2_000_000),
         proptest::collection::vec(token_strategy(true), 0..12),
         |l| json!({"tokens": l}),
         |list| {
